@@ -600,8 +600,8 @@ func c17WriteSide(r *eng.Run) string {
 		}
 	}
 	rand.Seed(int64(r.T.U32(sim.LMisc)))
-	which := r.T.Int(sim.LOp, 4)
-	name := []string{"WriteClientMessage", "Writer.WriteThrough", "CipherWriter.Write", "Writer.Write"}[which]
+	which := r.T.Int(sim.LOp, 5)
+	name := []string{"WriteClientMessage", "Writer.WriteThrough", "CipherWriter.Write", "Writer.Write", "Writer.ReadFrom(*bytes.Buffer)"}[which]
 	var err error
 	switch which {
 	case 0:
@@ -635,6 +635,18 @@ func c17WriteSide(r *eng.Run) string {
 		}
 		if err == nil {
 			_, err = cw.Write(rest)
+		}
+	case 4:
+		// The bytes wrapped in a bytes.Buffer (which does not copy them) and
+		// handed to the writer as a source, directly or through io.Copy.
+		w := c17ClientWriter(r, dst, []int{16, 200, 4096}[r.T.Int(sim.LSize, 3)])
+		if r.T.Bool(sim.LAct) {
+			_, err = w.ReadFrom(bytes.NewBuffer(data))
+		} else {
+			_, err = io.Copy(w, bytes.NewBuffer(data))
+		}
+		if err == nil {
+			err = w.Flush()
 		}
 	default:
 		w := c17ClientWriter(r, dst, 1+r.T.Int(sim.LSize, 200))
